@@ -58,8 +58,29 @@ def run(chk: lib.Check):
         scratch_dir = pathlib.Path(tempfile.mkdtemp(prefix="c08-"))
         shutil.copytree(pathlib.Path(spec0["path"]).parent, scratch_dir / "m", ignore=shutil.ignore_patterns("*.license"))
         spec_s = dict(spec0, path=scratch_dir / "m" / pathlib.Path(spec0["path"]).name)
-        model = corpus.load(spec_s)
         rng = random.Random(f"{chk.seed}:{spec0['name']}")
+        # EMF writes the children of an element grouped by feature; the accessors' position arithmetic has to hold for ANY interleaving
+        # (the theorem's quantifier): shuffle the children of a sample of owners that have children of several kinds, in the scratch copy
+        from lxml import etree as _ET
+        shuffled = 0
+        for f_ in sorted((scratch_dir / "m").glob("*.capella")):
+            t_ = _ET.parse(str(f_), _ET.XMLParser(remove_blank_text=False, huge_tree=True))
+            owners_ = [e for e in t_.getroot().iter() if isinstance(e.tag, str) and len(e) >= 3
+                       and len({(c.tag, c.get("{http://www.w3.org/2001/XMLSchema-instance}type")) for c in e if isinstance(c.tag, str)}) >= 2]
+            rng.shuffle(owners_)
+            for e in owners_[:60]:
+                kids_ = [c for c in e if isinstance(c.tag, str)]
+                tails_ = [c.tail for c in kids_]
+                for c in kids_:
+                    e.remove(c)
+                rng.shuffle(kids_)
+                for c, tl_ in zip(kids_, tails_):
+                    c.tail = tl_
+                    e.append(c)
+                shuffled += 1
+            f_.write_bytes(_ET.tostring(t_, xml_declaration=True, encoding="UTF-8"))
+        stats["owners-with-shuffled-children"] += shuffled
+        model = corpus.load(spec_s)
         uuidmod.uuid4 = lambda rng=rng: uuidmod.UUID(int=rng.getrandbits(128), version=4)
         A = graph.Abstraction()
         runner = histories.HistoryRunner(model, rng)
@@ -104,7 +125,7 @@ def run(chk: lib.Check):
             targets += lst[: (15 if quick else 80)]
         for (clsname, name), (o, acc, n0, kind, _score) in targets:
             cls = getattr(acc, "class_", None)
-            seq_len = (8 if quick else 14) * (4 if getattr(acc, "list_extra_args", {}).get("fixed_length") else 1)
+            seq_len = (8 if quick else 14) * (4 if getattr(acc, "list_extra_args", {}).get("fixed_length") else 2 if (kind in ("direct", "role") and _score[0] >= 1) else 1)
             try:
                 lst = getattr(o, name)
             except Exception:  # noqa: BLE001
@@ -122,6 +143,8 @@ def run(chk: lib.Check):
                 else:
                     opk = rng.choice(["insert", "insert", "append", "del", "create", "setitem", "insert_dup", "foreign", "clear", "two_handles",
                                       "slice_set", "slice_del", "assign"])
+                if kind in ("direct", "role") and not fixed and _score[0] >= 1 and rng.random() < 0.6:
+                    opk = "insert"      # members interleaved with children of other kinds: where the position arithmetic matters
                 if fixed and rng.random() < 0.5:
                     opk = rng.choice(["slice_set", "slice_set", "slice_del", "setitem", "assign"])     # length-changing forms of assignment
                 before_all = elements_snapshot(model, A)
